@@ -289,4 +289,54 @@ example : ∀ outA outB,
       (by decide) (by decide) (by decide) (exVote_ok _) rfl (by decide) (by decide)
       (by decide) (by decide) outA outB hA hB 2 9 2 rfl rfl
 
+/-- both runs of `drop_eq` succeed (so `drop_eq` is not vacuous): stored tree
+and reduced tree well-formed, `l` a non-leaf level with `cl` right below it -/
+theorem drop_both_succeed {κ} (t0 t' : RawTree) (cfg : Config) (vote : Oracle κ)
+    (l cl : Level) (pre post : List Level)
+    (ids : List CellId) (cells : List κ) (order : List Nat)
+    (hdrop : t0.dropLevel l = .ok t') (hs : t0.hierarchy = pre ++ l :: cl :: post)
+    (hwf0 : wfb t0 = true) (hwf : wfb t' = true) (hv : VoteOK t' vote)
+    (hlen : ids.length = cells.length) (hnd : ids.Nodup)
+    (hproc : 1 ≤ cfg.nProc) (hcs : 1 ≤ cfg.chunkSize)
+    (horder : order.Perm (List.range
+      (chunks cells.length (effChunk cells.length cfg.nProc cfg.chunkSize)).length)) :
+    (∃ outA, mapPipeline t0 { cfg with dropLevel := some l, flatten := false } vote ids cells order
+      = .ok outA) ∧
+    (∃ outB, mapPipeline t' { cfg with dropLevel := none, flatten := false } vote ids cells order
+      = .ok outB) := by
+  constructor
+  · obtain ⟨out, h, _⟩ := mapPipeline_drop_paths t0 t' { cfg with dropLevel := some l, flatten := false }
+      vote l cl pre post ids cells order rfl rfl hdrop hs hwf0 hwf hv hlen hnd hproc hcs horder
+    exact ⟨out, h⟩
+  · exact ⟨_, mapPipeline_plain_ok t' { cfg with dropLevel := none, flatten := false } vote ids cells
+      order rfl rfl hwf hv hlen hnd hproc hcs horder⟩
+
+/-- both runs of `flatten_eq` succeed -/
+theorem flatten_both_succeed {κ} (t0 : RawTree) (cfg : Config) (vote : Oracle κ) (ll : Level)
+    (ids : List CellId) (cells : List κ) (order : List Nat)
+    (hleaf : t0.leafLevel = some ll)
+    (hwf0 : wfb t0 = true) (hwf : wfb t0.flatten = true) (hv : VoteOK t0.flatten vote)
+    (hlen : ids.length = cells.length) (hnd : ids.Nodup)
+    (hproc : 1 ≤ cfg.nProc) (hcs : 1 ≤ cfg.chunkSize)
+    (horder : order.Perm (List.range
+      (chunks cells.length (effChunk cells.length cfg.nProc cfg.chunkSize)).length)) :
+    (∃ outA, mapPipeline t0 { cfg with dropLevel := none, flatten := true } vote ids cells order
+      = .ok outA) ∧
+    (∃ outB, mapPipeline t0.flatten { cfg with dropLevel := none, flatten := false } vote ids cells
+      order = .ok outB) := by
+  constructor
+  · obtain ⟨out, h, _⟩ := mapPipeline_flatten_paths t0 { cfg with dropLevel := none, flatten := true }
+      vote ll ids cells order rfl rfl hleaf hwf0 hwf hv hlen hnd hproc hcs horder
+    exact ⟨out, h⟩
+  · exact ⟨_, mapPipeline_plain_ok t0.flatten { cfg with dropLevel := none, flatten := false } vote
+      ids cells order rfl rfl hwf hv hlen hnd hproc hcs horder⟩
+
+example : (∃ outA, mapPipeline exTree { dropLevel := some 1, flatten := false, chunkSize := 2, nProc := 2 }
+      exVote [7, 3, 9] [0, 1, 2] [1, 0] = .ok outA) ∧
+    (∃ outB, mapPipeline exDropped { dropLevel := none, flatten := false, chunkSize := 2, nProc := 2 }
+      exVote [7, 3, 9] [0, 1, 2] [1, 0] = .ok outB) :=
+  drop_both_succeed exTree exDropped { chunkSize := 2, nProc := 2 } exVote 1 2 [0] [] [7, 3, 9]
+    [0, 1, 2] [1, 0] (by rfl) rfl exTree_wf (by decide) (exVote_ok _) rfl (by decide) (by decide)
+    (by decide) (by decide)
+
 end CTM.C17
